@@ -4948,8 +4948,35 @@ func (c *Checker) assignIvarIndicesForNamespace(namespace types.NamespaceWithIva
 				continue
 			}
 
-			for ivar := range types.SortedOwnInstanceVariables(parent) {
-				currentIvarIndices[ivar.Name] = len(currentIvarIndices)
+			if oldIndices := parent.IvarIndices(); oldIndices != nil {
+				// incremental mode, the namespace has been reopened: methods compiled
+				// by earlier inputs address its instance variables by index, so keep
+				// the old indices (unless an ancestor has taken the slot in the meantime)
+				// and give fresh indices only to the new instance variables
+				takenIndices := make(map[int]bool, len(currentIvarIndices))
+				nextIvarIndex := 0
+				for _, index := range currentIvarIndices {
+					takenIndices[index] = true
+					nextIvarIndex = max(nextIvarIndex, index+1)
+				}
+				for name, index := range *oldIndices {
+					if _, ok := currentIvarIndices[name]; ok || takenIndices[index] {
+						continue
+					}
+					currentIvarIndices[name] = index
+					nextIvarIndex = max(nextIvarIndex, index+1)
+				}
+				for ivar := range types.SortedOwnInstanceVariables(parent) {
+					if _, ok := currentIvarIndices[ivar.Name]; ok {
+						continue
+					}
+					currentIvarIndices[ivar.Name] = nextIvarIndex
+					nextIvarIndex++
+				}
+			} else {
+				for ivar := range types.SortedOwnInstanceVariables(parent) {
+					currentIvarIndices[ivar.Name] = len(currentIvarIndices)
+				}
 			}
 
 			parent.SetIvarIndices(&currentIvarIndices)
